@@ -99,6 +99,9 @@ impl World for MpmcWorld {
     fn id(&self) -> u8 {
         7
     }
+    fn shared_wakers(&self) -> bool {
+        true
+    }
     fn name(&self) -> &'static str {
         "mpmc"
     }
@@ -111,7 +114,7 @@ impl World for MpmcWorld {
         for flavour in [FL_LOCAL, FL_SYNC, FL_CHECKED, FL_SHARED, FL_SHARED_CHECKED] {
             for y in [BUF_ARRAY, BUF_FIXED, BUF_GROWING] {
                 for x in [0u8, 1, 2, 3, 5] {
-                    v.push(Cfg { flavour, mode: 0, x, y, k });
+                    v.push(Cfg { flavour, mode: 0, x, y, k, sw: 0 });
                 }
             }
         }
@@ -120,13 +123,13 @@ impl World for MpmcWorld {
     fn enum_configs(&self, tier: Tier) -> Vec<(Cfg, usize)> {
         let mut v = Vec::new();
         if tier == Tier::Quick {
-            v.push((Cfg { flavour: FL_CHECKED, mode: 0, x: 0, y: BUF_ARRAY, k: 2 }, 6));
-            v.push((Cfg { flavour: FL_CHECKED, mode: 0, x: 1, y: BUF_ARRAY, k: 2 }, 6));
+            v.push((Cfg { flavour: FL_CHECKED, mode: 0, x: 0, y: BUF_ARRAY, k: 2, sw: 0 }, 6));
+            v.push((Cfg { flavour: FL_CHECKED, mode: 0, x: 1, y: BUF_ARRAY, k: 2, sw: 0 }, 6));
         } else {
             for x in 0..=2u8 {
-                v.push((Cfg { flavour: FL_CHECKED, mode: 0, x, y: BUF_ARRAY, k: 2 }, 8));
+                v.push((Cfg { flavour: FL_CHECKED, mode: 0, x, y: BUF_ARRAY, k: 2, sw: 0 }, 8));
             }
-            v.push((Cfg { flavour: FL_SHARED_CHECKED, mode: 0, x: 1, y: BUF_FIXED, k: 2 }, 7));
+            v.push((Cfg { flavour: FL_SHARED_CHECKED, mode: 0, x: 1, y: BUF_FIXED, k: 2, sw: 0 }, 7));
         }
         v
     }
